@@ -379,30 +379,36 @@ def setcoll(run, drv):
             run.oracle_ok(site)
 
 
-# ----------------------------------------------------------------------------- extended domain (oracle only)
+# ----------------------------------------------------------------------------- numpy index arrays
 def extended(run, drv):
-    """inputs the model abstracts: numpy index arrays (ints and boolean masks). Property oracle only.
-    (Lazy stacks and tensorclasses are C08 / C15.)"""
+    """numpy index arrays (integer arrays of rank 0..2, boolean masks) in place of tensors: the model treats them as the
+    tensors they stand for, so the same model answer must come out (correspondence `getitem_numpy`, unnamed tensordicts:
+    `_get_names_idx.is_boolean` does not recognise numpy masks, a names-only difference outside the C03 text), plus the
+    property oracle."""
     rng = run.rng
-    n = 1200 if run.tier == "quick" else 8000
+    n = 1500 if run.tier == "quick" else 10000
+    cases = []
     for _ in range(n):
         bs = G.gen_bs(rng)
-        idx = G.gen_index_adv(rng, bs) if rng.random() < 0.2 else G.gen_index(rng, bs, p_bad=0.04, p_overrun=0.03)
+        idx = G.gen_index_adv(rng, bs) if rng.random() < 0.25 else G.gen_index(rng, bs, p_bad=0.04, p_overrun=0.03)
         if sum(1 for t in G.items_of(idx) if t == G.ELL) > 1:
             continue
+        if not any(it[0] in ("tensor", "mask") for it in G.items_of(idx)):
+            continue
         spec = S.gen_td_spec(rng, bs)
+        spec["names"] = None
+        cases.append((spec, idx))
+    answers = S.ask_chunked(drv, [f"(c03.get {S.td_sx(spec)} {G.index_sx(idx)})" for spec, idx in cases])
+    for (spec, idx), a in zip(cases, answers):
+        m = S.fix_model_get(parse_sx(a), spec)
+        impl, td, r = S.impl_get(spec, idx, as_numpy=True)
         run.count("ext.kind", "numpy-read")
         run.case(("ext", "numpy", json.dumps(spec, sort_keys=True), G.index_sx(idx)))
-        td = S.build_td(spec)
-        try:
-            with time_limit(TL):
-                r = td[G.index_py(idx, as_numpy=True)]
-            impl = ["ok", ["bs"] + list(r.batch_size)] if r is not td else ["self"]
-        except TimeoutError:
-            raise
-        except Exception as e:
-            impl, r = ["err", err_class(e)], None
-        S.oracle_read(run, spec, idx, impl, td, r, site="ext-numpy")
+        if S.outcome(impl) == "err" and S.outcome(m) == "err":
+            run.corr("getitem_numpy", None, "err", "err")
+        else:
+            run.corr("getitem_numpy", {"td": spec, "idx": G.index_json(idx), "idx_raw": idx, "numpy": True}, impl, m)
+        S.oracle_read(run, spec, idx, impl, td, r, site="ext-numpy", as_numpy=True)
 
 
 # ----------------------------------------------------------------------------- fixed witnesses of the known defects
@@ -428,6 +434,31 @@ def witnesses(run, drv):
         impl, td, r = S.impl_get(spec, idx)
         run.case(("witness", json.dumps(spec, sort_keys=True), G.index_sx(idx)))
         S.oracle_read(run, spec, idx, impl, td, r, site="witness")
+    # whole-entry writes on a tensordict that also holds non-tensor data (td[()] = v, td[...] = v on a 0-d tensordict):
+    # `entry[idx] = value[key]` for the tensor entry, the non-tensor entry takes the value's payload (repaired by fix: dd9955b;
+    # before it tensorclass._getitem took the empty tuple for a tuple of keys and raised ValueError)
+    from tensordict import NonTensorData, TensorDict
+    for bs, idxs in (([], [Ellipsis, ()]), ([3], [()])):
+        for as_dict in (False, True):
+            for ix in idxs:
+                case = {"mode": "write-nontensor", "bs": bs, "idx": repr(ix), "value": "dict" if as_dict else "TensorDict"}
+                run.case(("witness-nontensor", json.dumps(case)))
+                td = TensorDict({"a": torch.zeros(bs), "nt": NonTensorData("x", batch_size=bs)}, bs)
+                val = {"a": torch.ones(bs), "nt": NonTensorData("y", batch_size=bs)}
+                try:
+                    with time_limit(TL):
+                        td[ix] = val if as_dict else TensorDict(val, bs)
+                    nt = td.get("nt").tolist()
+                    flat = nt if isinstance(nt, str) else [x for x in nt]
+                    good = bool((td.get("a") == 1).all()) and (flat == "y" or (isinstance(flat, list) and all(x == "y" for x in flat)))
+                    if good:
+                        run.oracle_ok("witness-nontensor")
+                    else:
+                        run.oracle_fail("witness-nontensor", case, f"after the assignment a = {td.get('a').tolist()} nt = {nt} (expected ones and 'y')", "nontensor-whole-entry-write:wrong-content")
+                except TimeoutError:
+                    raise
+                except Exception as e:
+                    run.oracle_fail("witness-nontensor", case, f"torch accepts a[idx] = value['a']; the tensordict raised {type(e).__name__}: {str(e)[:120]}", "nontensor-whole-entry-write:raises")
     # replay of the Lean counter-witness `names_follow_index_counterexample` on the implementation (observation: names are
     # outside the C03 property text; the number of names differing from the number of batch dims is C01 territory)
     spec = {"bs": [3, 2, 4], "names": ["a", "b", "c"], "feats": [[]], "nested": []}
